@@ -494,6 +494,75 @@ class ArrStr(AnySymbolicStr, CrossHairValue):
 
             return _sbool(_memo("isspace", self.key, build))
 
+    def _strip_count(self, chars, from_left):
+        """number of leading (trailing) characters that belong to the concrete set `chars`"""
+        def in_set(c):
+            return z3.Or([c == ord(x) for x in chars]) if chars else z3.BoolVal(False)
+
+        cnt = z3.IntVal(0)
+        if from_left:
+            pref = z3.BoolVal(True)
+            for j in range(self.cap):
+                pref = z3.And(pref, j < self.ln, in_set(self.chars[j]))
+                cnt = cnt + z3.If(pref, 1, 0)
+        else:
+            # trailing: position ln-1-j
+            pref = z3.BoolVal(True)
+            for j in range(self.cap):
+                pref = z3.And(pref, j < self.ln, in_set(_ite_select(self.chars, _simp(self.ln - 1 - j))))
+                cnt = cnt + z3.If(pref, 1, 0)
+        return _simp(cnt)
+
+    def lstrip(self, chars=None):
+        if chars is None:
+            chars = "".join(chr(p) for p in _WS_POINTS)
+        with NoTracing():
+            if isinstance(chars, str):
+                k = self._strip_count(chars, True)
+                return _out(self._slice(k, self.ln))
+        return pin(self, "lstrip(symbolic set)").lstrip(realize(chars))
+
+    def rstrip(self, chars=None):
+        if chars is None:
+            chars = "".join(chr(p) for p in _WS_POINTS)
+        with NoTracing():
+            if isinstance(chars, str):
+                k = self._strip_count(chars, False)
+                return _out(self._slice(z3.IntVal(0), _simp(self.ln - k)))
+        return pin(self, "rstrip(symbolic set)").rstrip(realize(chars))
+
+    def strip(self, chars=None):
+        r = self.lstrip(chars)
+        return r.rstrip(chars)
+
+    def isascii(self):
+        with NoTracing():
+            return _sbool(self._is_ascii_expr())
+
+    def isalpha(self):
+        with NoTracing():
+            asc = _sbool(self._is_ascii_expr())
+        if asc:
+            with NoTracing():
+                conj = [self.ln > 0]
+                for k in range(self.cap):
+                    c = self.chars[k]
+                    conj.append(z3.Implies(k < self.ln, z3.Or(z3.And(c >= 65, c <= 90), z3.And(c >= 97, c <= 122))))
+                return _sbool(_simp(z3.And(conj)))
+        return pin(self, "isalpha(non-ascii)").isalpha()
+
+    def rfind(self, sub, start=None, end=None):
+        if start is not None or end is not None:
+            return pin(self, "rfind(start/end)").rfind(realize(sub), realize(start), realize(end))
+        with NoTracing():
+            o = _arr(sub)
+            out = z3.IntVal(-1)
+            for i in range(self.cap + 1):
+                out = z3.If(self._match_at(o, i), z3.IntVal(i), out)
+            e = _simp(out)
+            n = _conc_int(e)
+            return n if n is not None else SymbolicInt(e)
+
     def _is_ascii_expr(self):
         return _simp(z3.And([z3.Implies(k < self.ln, self.chars[k] < 128) for k in range(self.cap)]))
 
@@ -527,7 +596,7 @@ class ArrStr(AnySymbolicStr, CrossHairValue):
         return out
 
     def __iter__(self):
-        n = pin_len(self)
+        n = fork_len(self)
         return iter([self[k] for k in range(n)])
 
     def __mul__(self, n):
@@ -633,6 +702,19 @@ for _name in dir(str):
     if _name.startswith("_") or _name in ArrStr.__dict__:
         continue
     setattr(ArrStr, _name, _make_fallback(_name))
+
+
+def fork_len(x):
+    """the length as a concrete int, one branch per feasible length (bounded by the capacity)"""
+    with NoTracing():
+        n = _conc_int(x.ln)
+        if n is not None:
+            return n
+        space = context_statespace()
+        for k in range(x.cap):
+            if space.smt_fork(x.ln == k, desc="len"):
+                return k
+        return x.cap
 
 
 def pin_len(x):
